@@ -134,7 +134,7 @@ let () =
   let fail o msg = incr fails; Printf.printf "FAIL\t%s\t%d\t%s\n" o !idx msg in
   let hist : (string, string) Hashtbl.t = Hashtbl.create 1024 in
   let embed : (string * string * string) option ref = ref None in
-  let embed_first : result option ref = ref None in
+  let embed_results : result list ref = ref [] in
   let layout_group : (int * result) list ref = ref [] in
   let distinct : (string, unit) Hashtbl.t = Hashtbl.create 4096 in
   let prev_vis : (string * string * string list) option ref = ref None in
@@ -180,7 +180,7 @@ let () =
       | "PROJ" :: p :: _ -> proj := p
       | "ORACLE" :: o :: _ -> oracles := List.filter (fun x -> x <> "") (String.split_on_char ',' o); layout_group := []
       | ["ORACLE"] -> oracles := []
-      | ["EMBED"; x; b; a] -> embed := Some (unhex x, unhex b, unhex a); embed_first := None
+      | ["EMBED"; x; b; a] -> embed := Some (unhex x, unhex b, unhex a); embed_results := []
       | ["LEX"; hexsrc; expected] ->
           incr total; incr lexc;
           Hashtbl.replace distinct line ();
@@ -271,18 +271,23 @@ let () =
              | None -> Hashtbl.replace hist key (kind ^ "\t" ^ payload))
           end;
           if has "embed" then begin
-            match !embed, !embed_first with
-            | Some _, None -> embed_first := Some impl
-            | Some (x, b, a), Some first ->
-                (match first, impl with
-                 | ROk alone, ROk whole ->
-                     let contains s sub =
-                       let n = String.length s and m = String.length sub in
-                       let rec go i = i + m <= n && (String.sub s i m = sub || go (i + 1)) in m = 0 || go 0 in
-                     if not (contains whole alone) then fail "embed" (Printf.sprintf "code of a top-level statement changes with its surroundings: %S alone vs. between %S and %S" x b a)
-                 | _ -> ());
-                embed := None
-            | None, _ -> ()
+            (* after an EMBED directive: X alone, the surroundings alone, X among the surroundings *)
+            match !embed with
+            | Some (x, b, a) ->
+                embed_results := impl :: !embed_results;
+                if List.length !embed_results = 3 then begin
+                  (match List.rev !embed_results with
+                   | [ROk alone; ROk _; ROk whole] ->
+                       let contains s sub =
+                         let n = String.length s and m = String.length sub in
+                         let rec go i = i + m <= n && (String.sub s i m = sub || go (i + 1)) in m = 0 || go 0 in
+                       if not (contains whole alone) then fail "embed" (Printf.sprintf "code of a top-level statement changes with its surroundings: %S alone vs. between %S and %S" x b a)
+                   | [ROk _; ROk _; (RErr _ | ROther _)] ->
+                       fail "embed" (Printf.sprintf "statement %S compiles alone, its surroundings %S / %S compile alone, together they are rejected" x b a)
+                   | _ -> ());
+                  embed := None; embed_results := []
+                end
+            | None -> ()
           end;
           if has "layout" then begin
             layout_group := (!idx, impl) :: !layout_group;
